@@ -887,3 +887,167 @@ Proof.
       * intros [q Hq]. assert (x = (k, q)) as -> by (symmetry; apply Hsole, Hpeer, Hq).
         cbn [fst snd]. split; [reflexivity|]. apply elem_of_dom. eauto.
 Qed.
+
+(* ---- the other operations ---- *)
+Lemma CtlOK_rib bd w sw rib' srib' : CtlOK bd w sw ->
+  CtlOK bd (MkWorld (w_reg w) (w_unit w) (w_routers w) rib' (w_bgp w) (w_bgp_conns w) (w_ids w))
+           (MkSWorld (s_sess sw) srib' (s_bgp sw) (s_bgp_conns sw)).
+Proof. intros [A B C D E F G H I J]. split; assumption. Qed.
+
+Lemma Lstep_nil L key : Lstep L [] key = L key. Proof. reflexivity. Qed.
+
+Lemma id_table_init : id_table sm_init = ∅. Proof. unfold id_table. cbn. apply fmap_empty. Qed.
+
+Lemma step_connect bd w sw L k :
+  CtlOK bd w sw -> RibOK (w_ids w) (s_rib sw) L -> k < 1000 -> bd + 1 < two32 ->
+  CtlOK (bd + 1) (wstep w (WConnect k)).1 (sstep sw (WConnect k)).1 /\
+  RibOK (w_ids (wstep w (WConnect k)).1) (s_rib (sstep sw (WConnect k)).1) (Lstep L (step_evs (wstep w (WConnect k)).2)).
+Proof.
+  intros H HRib Hk Hbd. pose proof (c_reg _ _ _ H) as HR. pose proof (c_ser _ _ _ H) as Hser.
+  destruct (for_ext router_match (w_reg w) (w_unit w) (router_query (w_unit w) k) HR) as (HR' & Hle & Hser' & Hid);
+    [intros inf Hinf; eapply router_match_eq; eassumption|left; eauto|lia|].
+  cbn [wstep sstep]. destruct (find_or_register router_match (w_reg w) (router_query (w_unit w) k)) as [rid r'].
+  cbn [fst snd] in *. wproj. split; [|eapply RibOK_ext; [exact HRib|reflexivity]].
+  eapply ctl_session; try eassumption.
+  - lia.
+  - auto.
+  - auto.
+  - intros p i Hp. rewrite id_table_init, lookup_empty in Hp. discriminate.
+  - exists ∅. rewrite lookup_insert, id_table_init, dom_empty_L. reflexivity.
+  - intros k' Hk'. apply lookup_insert_ne. congruence.
+Qed.
+
+Lemma step_disconnect bd w sw L k :
+  CtlOK bd w sw -> RibOK (w_ids w) (s_rib sw) L ->
+  CtlOK bd (wstep w (WDisconnect k)).1 (sstep sw (WDisconnect k)).1 /\
+  RibOK (w_ids (wstep w (WDisconnect k)).1) (s_rib (sstep sw (WDisconnect k)).1) (Lstep L (step_evs (wstep w (WDisconnect k)).2)).
+Proof.
+  intros H HRib. cbn [wstep sstep]. destruct (w_routers w !! k) as [[rid s]|] eqn:Hr.
+  2:{ rewrite (c_sess_none _ _ _ H _ Hr). cbn [fst snd]. split; [exact H|]. eapply RibOK_ext; [exact HRib|reflexivity]. }
+  destruct (c_sess_some _ _ _ H _ _ _ Hr) as [ever Hs]. rewrite Hs. cbn [fst snd]. wproj.
+  destruct (c_rtr _ _ _ H _ _ _ Hr) as [Hk Hrid]. pose proof (c_reg _ _ _ H) as HR.
+  split.
+  - split; wproj.
+    + exact HR.
+    + apply (c_ser _ _ _ H).
+    + intros k0 H0. destruct (decide (k0 = k)) as [->|Hne]; [apply lookup_delete|].
+      rewrite lookup_delete_ne in H0 by congruence. rewrite lookup_delete_ne by congruence. apply (c_sess_none _ _ _ H), H0.
+    + intros k0 rid0 s0 H0. apply lookup_delete_Some in H0 as [Hne H0]. rewrite lookup_delete_ne by congruence.
+      eapply (c_sess_some _ _ _ H), H0.
+    + intros k0 rid0 s0 H0. apply lookup_delete_Some in H0 as [Hne H0]. eapply (c_rtr _ _ _ H), H0.
+    + intros k0 rid0 s0 p i H0. apply lookup_delete_Some in H0 as [Hne H0]. eapply (c_peer _ _ _ H), H0.
+    + apply (c_ids _ _ _ H).
+    + apply (c_bgp _ _ _ H).
+    + apply (c_sbgp _ _ _ H).
+    + apply (c_conns _ _ _ H).
+  - rewrite step_evs_step. cbn [out_evs evs_of_update].
+    eapply (RibOK_down _ _ _ _ (reg_ids_for_parent (w_reg w) rid)); [exact HRib| |reflexivity].
+    intros x i Hx Hsole. rewrite bool_decide_eq_true, elem_of_ids_for_parent. split.
+    + intros Hxk. destruct x as [k0 p]. cbn [fst] in Hxk. subst k0.
+      destruct (ids_bmp _ _ _ _ _ _ H Hk Hx) as (rid0 & H1 & H2).
+      assert (rid0 = rid) as -> by (eapply (ro_inj _ _ HR); eassumption).
+      eexists. split; [exact H2|reflexivity].
+    + intros (inf & Hinf & Hpar).
+      destruct (c_ids _ _ _ H _ _ Hx) as [(_ & rid0 & H1 & H2)|(b & c & c' & _ & Hn & _)]; [|congruence].
+      rewrite Hinf in H2. injection H2 as ->. cbn in Hpar. injection Hpar as ->.
+      rewrite Hrid in H1. injection H1 as H1. symmetry. exact H1.
+Qed.
+
+Lemma step_bgp_open bd w sw L b :
+  CtlOK bd w sw -> RibOK (w_ids w) (s_rib sw) L -> bd + 1 < two32 ->
+  CtlOK (bd + 1) (wstep w (WBgpOpen b)).1 (sstep sw (WBgpOpen b)).1 /\
+  RibOK (w_ids (wstep w (WBgpOpen b)).1) (s_rib (sstep sw (WBgpOpen b)).1) (Lstep L (step_evs (wstep w (WBgpOpen b)).2)).
+Proof.
+  intros H HRib Hbd. pose proof (c_reg _ _ _ H) as HR. pose proof (c_ser _ _ _ H) as Hser.
+  destruct (RegOK_register _ _ HR) as [HR' Hle]; [lia|].
+  cbn [wstep sstep]. rewrite (c_conns _ _ _ H).
+  set (c := match w_bgp_conns w !! b with Some c => c + 1 | None => 0 end).
+  cbn [reg_register] in *. cbn [fst snd] in *. wproj.
+  set (r' := MkReg ((serial (w_reg w) + 1) mod two32) (infos (w_reg w))) in *.
+  assert (Hs' : serial r' = serial (w_reg w) + 1) by (subst r'; cbn [serial]; apply N.mod_small; lia).
+  assert (Hfresh : id_of (w_ids w) (bgp_wid b c) = None).
+  { destruct (id_of (w_ids w) (bgp_wid b c)) as [j|] eqn:Ej; [exfalso|reflexivity].
+    destruct (c_ids _ _ _ H _ _ Ej) as [(Hlt & _)|(b1 & c1 & c1' & Hx & _ & _ & Hc & Hcc)]; [cbn in Hlt; lia|].
+    apply bgp_wid_inj in Hx as [<- <-]. subst c. rewrite Hc in Hcc. lia. }
+  split; [|apply RibOK_note; eapply RibOK_ext; [exact HRib|reflexivity]].
+  split; wproj.
+  - exact HR'.
+  - lia.
+  - apply (c_sess_none _ _ _ H).
+  - apply (c_sess_some _ _ _ H).
+  - intros k rid s Hr. destruct (c_rtr _ _ _ H _ _ _ Hr) as [A B]. split; [exact A|]. exact (reg_le_some _ _ _ _ _ HR Hle B).
+  - intros k rid s p i Hr Hp. apply note_id_ext. eapply (c_peer _ _ _ H); eassumption.
+  - intros x i Hx. apply note_id_inv in Hx as [Hx|(-> & -> & _)].
+    + destruct (c_ids _ _ _ H _ _ Hx) as [Hb|Hb]; [left; exact (bmp_id_ok_le _ _ _ _ _ HR Hle Hb)|right].
+      apply (bgp_id_ok_le _ r') in Hb; [|exact Hle]. destruct Hb as (b0 & c0 & c0' & -> & Hn & Hlt & Hc & Hcc).
+      destruct (decide (b0 = b)) as [->|Hne].
+      * exists b, c0, c. repeat split; try assumption; [apply lookup_insert|]. subst c. rewrite Hc. lia.
+      * exists b0, c0, c0'. repeat split; try assumption. rewrite lookup_insert_ne by congruence. exact Hc.
+    + right. exists b, c, c. repeat split; [| |apply lookup_insert|lia].
+      * subst r'. cbn [infos]. destruct (infos (w_reg w) !! serial (w_reg w)) as [inf|] eqn:E; [|reflexivity].
+        apply (ro_below _ _ HR) in E. lia.
+      * lia.
+  - intros b0 id0 c0 Hb. apply lookup_insert_Some in Hb as [[<- [= <- <-]]|[Hne Hb]].
+    + rewrite (note_id_new _ _ _ Hfresh), id_of_snoc, Hfresh. rewrite decide_True by reflexivity. reflexivity.
+    + apply note_id_ext. eapply (c_bgp _ _ _ H), Hb.
+  - intros b0. destruct (decide (b0 = b)) as [->|Hne].
+    + rewrite !lookup_insert. reflexivity.
+    + rewrite !lookup_insert_ne by congruence. apply (c_sbgp _ _ _ H).
+  - rewrite ?(c_conns _ _ _ H). reflexivity.
+Qed.
+
+Lemma step_bgp_update bd w sw L b u :
+  CtlOK bd w sw -> RibOK (w_ids w) (s_rib sw) L ->
+  CtlOK bd (wstep w (WBgpUpdate b u)).1 (sstep sw (WBgpUpdate b u)).1 /\
+  RibOK (w_ids (wstep w (WBgpUpdate b u)).1) (s_rib (sstep sw (WBgpUpdate b u)).1) (Lstep L (step_evs (wstep w (WBgpUpdate b u)).2)).
+Proof.
+  intros H HRib. cbn [wstep sstep]. rewrite (c_sbgp _ _ _ H).
+  destruct (w_bgp w !! b) as [[id c]|] eqn:Hb; cbn [fmap option_fmap option_map snd].
+  2:{ cbn [fst snd]. split; [exact H|]. eapply RibOK_ext; [exact HRib|reflexivity]. }
+  destruct u as [u|].
+  2:{ cbn [fst snd]. split; [exact H|]. eapply RibOK_ext; [exact HRib|reflexivity]. }
+  cbn [fst snd]. wproj. split; [apply CtlOK_rib, H|].
+  rewrite step_evs_step. eapply RibOK_update; [exact HRib|eapply (c_bgp _ _ _ H), Hb|reflexivity].
+Qed.
+
+Lemma step_bgp_close bd w sw L b :
+  CtlOK bd w sw -> RibOK (w_ids w) (s_rib sw) L ->
+  CtlOK bd (wstep w (WBgpClose b)).1 (sstep sw (WBgpClose b)).1 /\
+  RibOK (w_ids (wstep w (WBgpClose b)).1) (s_rib (sstep sw (WBgpClose b)).1) (Lstep L (step_evs (wstep w (WBgpClose b)).2)).
+Proof.
+  intros H HRib. cbn [wstep sstep]. rewrite (c_sbgp _ _ _ H).
+  destruct (w_bgp w !! b) as [[id c]|] eqn:Hb; cbn [fmap option_fmap option_map snd].
+  2:{ cbn [fst snd]. split; [exact H|]. eapply RibOK_ext; [exact HRib|reflexivity]. }
+  cbn [fst snd]. wproj. pose proof (c_bgp _ _ _ H _ _ _ Hb) as Hid. split.
+  - destruct H as [A B C D E F G I J K]. split; wproj; try assumption.
+    + intros b0 id0 c0 H0. apply lookup_delete_Some in H0 as [_ H0]. eapply I, H0.
+    + intros b0. destruct (decide (b0 = b)) as [->|Hne]; [rewrite !lookup_delete; reflexivity|].
+      rewrite !lookup_delete_ne by congruence. apply J.
+  - rewrite step_evs_step. cbn [out_evs evs_of_update].
+    eapply (RibOK_down _ _ _ _ [id]); [exact HRib| |reflexivity].
+    intros x i Hx Hsole. rewrite bool_decide_eq_true, elem_of_list_singleton. split.
+    + intros ->. congruence.
+    + intros ->. symmetry. apply Hsole, Hid.
+Qed.
+
+(* the discipline the composition needs of a history: BMP router keys stay below the
+   range reserved for BGP sessions in the wire-identity encoding (bgp_wid) *)
+Definition op_ok (o : wop) : bool := match o with WConnect k => k <? 1000 | _ => true end.
+
+Theorem step_inv bd w sw L o :
+  CtlOK bd w sw -> RibOK (w_ids w) (s_rib sw) L -> op_ok o = true -> bd + 1 < two32 ->
+  CtlOK (bd + 1) (wstep w o).1 (sstep sw o).1 /\
+  RibOK (w_ids (wstep w o).1) (s_rib (sstep sw o).1) (Lstep L (step_evs (wstep w o).2)).
+Proof.
+  intros H HRib Hok Hbd.
+  assert (Hm : forall w' sw', CtlOK bd w' sw' -> CtlOK (bd + 1) w' sw') by (intros; eapply CtlOK_mono; [eassumption|lia]).
+  destruct o as [k|k m|k|b|b u|b|af pfx|k].
+  - apply step_connect; try assumption. cbn in Hok. apply N.ltb_lt, Hok.
+  - apply step_msg; assumption.
+  - destruct (step_disconnect bd w sw L k H HRib) as [A B]. split; [apply Hm, A|exact B].
+  - apply step_bgp_open; assumption.
+  - destruct (step_bgp_update bd w sw L b u H HRib) as [A B]. split; [apply Hm, A|exact B].
+  - destruct (step_bgp_close bd w sw L b H HRib) as [A B]. split; [apply Hm, A|exact B].
+  - cbn [wstep sstep fst snd]. split; [apply Hm, H|]. eapply RibOK_ext; [exact HRib|reflexivity].
+  - cbn [wstep sstep fst snd]. split; [apply Hm, H|]. eapply RibOK_ext; [exact HRib|reflexivity].
+Qed.
